@@ -130,6 +130,163 @@ def nested_by_role(fi, name, role=None):
     return None
 
 
+def body_fingerprint(node, rev=None):
+    """Hash of a function's parameters and body, independent of the
+    function's own name and of source positions; attribute and function
+    names that are known renames (rev: actual -> known) count as the known
+    name."""
+    import copy
+    import hashlib
+    node = copy.deepcopy(node)
+    own = node.name
+    for n in ast.walk(node):
+        if isinstance(n, ast.Attribute):
+            if n.attr == own:
+                n.attr = '<self>'          # a recursive / self reference
+            elif rev and n.attr in rev:
+                n.attr = rev[n.attr]
+        elif isinstance(n, ast.Name):
+            if n.id == own:
+                n.id = '<self>'
+            elif rev and n.id in rev:
+                n.id = rev[n.id]
+    parts = [ast.dump(node.args)] + [ast.dump(st) for st in node.body
+                                     if not (isinstance(st, ast.Expr) and
+                                             isinstance(st.value, ast.Constant)
+                                             and isinstance(st.value.value, str))]
+    return hashlib.sha1('\n'.join(parts).encode()).hexdigest()[:16]
+
+
+_FPS = None
+
+
+def known_fingerprints():
+    global _FPS
+    if _FPS is None:
+        p = os.path.join(os.path.dirname(os.path.abspath(__file__)),
+                         'known_fps.json')
+        try:
+            import json
+            with open(p, encoding='utf-8') as f:
+                _FPS = json.load(f)
+        except (OSError, ValueError):
+            _FPS = {}
+    return _FPS
+
+
+def canonical_maps(containers):
+    """containers: {container qualname: {actual name: FunctionDef}} for every
+    module and class.  Returns {container: {actual name: known name}} for the
+    functions that are a pure RENAME of a known function of that container
+    (same parameters and body up to the renames found so far, the known name
+    is gone, the match is unique).  The rules keep addressing them by the name
+    they were written against.  Computed as a fixpoint so that a renamed
+    function may call another renamed function."""
+    fps = known_fingerprints()
+    out = {c: {} for c in containers}
+    rev = {}                      # actual name -> known name (any container)
+    for _ in range(4):
+        changed = False
+        for cont, present in containers.items():
+            prefix = cont + '.'
+            known_here = {k[len(prefix):]: v for k, v in fps.items()
+                          if k.startswith(prefix) and
+                          '.' not in k[len(prefix):]}
+            missing = {n: fp for n, fp in known_here.items()
+                       if n not in present and n not in out[cont].values()}
+            if not missing:
+                continue
+            new = {n: node for n, node in present.items()
+                   if n not in known_here and n not in out[cont]}
+            for old, fp in missing.items():
+                cands = [n for n, node in new.items()
+                         if body_fingerprint(node, rev) == fp]
+                if len(cands) == 1:
+                    out[cont][cands[0]] = old
+                    rev[cands[0]] = old
+                    changed = True
+        if not changed:
+            break
+    return out
+
+
+def attr_profiles(modules, canon):
+    """{attribute name: {where: count}} over the package, `where` being
+    'module.Class.function' (top-level function or method, by its canonical
+    name) or 'module.Class' for class-level assignments."""
+    prof = {}
+
+    def bump(name, where):
+        prof.setdefault(name, {})
+        prof[name][where] = prof[name].get(where, 0) + 1
+
+    def scan(node, where):
+        for n in ast.walk(node):
+            if isinstance(n, ast.Attribute):
+                bump(n.attr, where)
+    # functions are identified by their POSITION in their container, so
+    # that the profile does not depend on function names (which may have
+    # been renamed in the same change)
+    for mname, tree in modules.items():
+        k = 0
+        for st in tree.body:
+            if isinstance(st, (ast.FunctionDef, ast.AsyncFunctionDef)):
+                scan(st, '%s#%d' % (mname, k))
+                k += 1
+            elif isinstance(st, ast.ClassDef):
+                cq = '%s.%s' % (mname, st.name)
+                j = 0
+                for cst in st.body:
+                    if isinstance(cst, (ast.FunctionDef,
+                                        ast.AsyncFunctionDef)):
+                        scan(cst, '%s#%d' % (cq, j))
+                        j += 1
+                    elif isinstance(cst, ast.Assign):
+                        for t in cst.targets:
+                            if isinstance(t, ast.Name):
+                                bump(t.id, cq)
+                        scan(cst.value, cq)
+            else:
+                scan(st, mname)
+    return prof
+
+
+_APROF = None
+
+
+def known_attr_profiles():
+    global _APROF
+    if _APROF is None:
+        p = os.path.join(os.path.dirname(os.path.abspath(__file__)),
+                         'known_attrs.json')
+        try:
+            import json
+            with open(p, encoding='utf-8') as f:
+                _APROF = json.load(f)
+        except (OSError, ValueError):
+            _APROF = {}
+    return _APROF
+
+
+def attribute_aliases(modules, canon):
+    """{new attribute name: known attribute name} for attributes that were
+    consistently RENAMED: the known name no longer occurs anywhere, and exactly
+    one name that the baseline did not have occurs in exactly the same places
+    the same number of times."""
+    base = known_attr_profiles()
+    if not base:
+        return {}
+    now = attr_profiles(modules, canon)
+    gone = {a: pr for a, pr in base.items() if a not in now}
+    fresh = {a: pr for a, pr in now.items() if a not in base}
+    out = {}
+    for old, pr in gone.items():
+        cands = [a for a, p2 in fresh.items() if p2 == pr]
+        if len(cands) == 1 and cands[0] not in out:
+            out[cands[0]] = old
+    return out
+
+
 class Module:
     def __init__(self, name, path, relpath, src):
         self.name = name
@@ -205,6 +362,7 @@ class Program:
         self.modules = {}
         self.all_funcs = {}     # qualname -> FuncInfo
         self.all_classes = {}   # qualname -> ClassInfo
+        self.renamed = {}       # known qualname -> actual name (pure renames)
         for fn in sorted(os.listdir(self.pkgdir)):
             if not fn.endswith('.py'):
                 continue
@@ -214,6 +372,40 @@ class Program:
                 src = f.read()
             m = Module(name, path, '%s/%s' % (PKG, fn), src)
             self.modules[name] = m
+        conts = {}
+        for m in self.modules.values():
+            conts[m.name] = {
+                x.name: x for x in m.tree.body
+                if isinstance(x, (ast.FunctionDef, ast.AsyncFunctionDef))}
+            for c in m.tree.body:
+                if isinstance(c, ast.ClassDef):
+                    conts['%s.%s' % (m.name, c.name)] = {
+                        x.name: x for x in c.body if isinstance(
+                            x, (ast.FunctionDef, ast.AsyncFunctionDef))}
+        # attributes that were consistently renamed are given their known
+        # name back in the trees the analysis works on (the rules address
+        # state by attribute name: _buffer, _pendingCalls, exports, ...)
+        self.attr_alias = attribute_aliases(
+            {m.name: m.tree for m in self.modules.values()}, {})
+        if self.attr_alias:
+            for m in self.modules.values():
+                for n in ast.walk(m.tree):
+                    if isinstance(n, ast.Attribute) and \
+                            n.attr in self.attr_alias:
+                        n.attr = self.attr_alias[n.attr]
+                for st in m.tree.body:
+                    if isinstance(st, ast.ClassDef):
+                        for cst in st.body:
+                            if isinstance(cst, ast.Assign):
+                                for t in cst.targets:
+                                    if isinstance(t, ast.Name) and \
+                                            t.id in self.attr_alias:
+                                        t.id = self.attr_alias[t.id]
+        self._canon = canonical_maps(conts)
+        # actual method name -> known name, for calls on receivers whose class
+        # is not known (msg._marshal(False), self.factory._failed(reason))
+        self.renamed_attr = {a: k for m_ in self._canon.values()
+                             for a, k in m_.items()}
         for m in self.modules.values():
             self._index_module(m)
         for c in self.all_classes.values():
@@ -227,18 +419,29 @@ class Program:
 
     def _index_stmt(self, m, st):
         if isinstance(st, (ast.FunctionDef, ast.AsyncFunctionDef)):
-            fi = FuncInfo('%s.%s' % (m.name, st.name), st, m)
+            cname = self._canon.get(m.name, {}).get(st.name, st.name)
+            fi = FuncInfo('%s.%s' % (m.name, cname), st, m)
             m.funcs[st.name] = fi
+            if cname != st.name:
+                m.funcs[cname] = fi
+                self.renamed[fi.qualname] = st.name
             self._register_func(fi)
         elif isinstance(st, ast.ClassDef):
             ci = ClassInfo('%s.%s' % (m.name, st.name), st, m)
             m.classes[st.name] = ci
             self.all_classes[ci.qualname] = ci
+            canon = self._canon.get(ci.qualname, {})
             for cst in st.body:
                 if isinstance(cst, (ast.FunctionDef, ast.AsyncFunctionDef)):
-                    fi = FuncInfo('%s.%s' % (ci.qualname, cst.name), cst, m,
+                    cname = canon.get(cst.name, cst.name)
+                    fi = FuncInfo('%s.%s' % (ci.qualname, cname), cst, m,
                                   cls=ci)
                     ci.methods[cst.name] = fi
+                    if cname != cst.name:
+                        # a pure rename: still reachable under the name the
+                        # rules were written against
+                        ci.methods[cname] = fi
+                        self.renamed[fi.qualname] = cst.name
                     self._register_func(fi)
                 elif isinstance(cst, ast.Assign):
                     for t in cst.targets:
